@@ -495,7 +495,10 @@ pub fn check_case(c: &Case) -> Vec<String> {
             other => bad.push(format!("span name {:?} appears as {:?}", exp.0, other)),
         }
         for (k, v) in &exp.1 {
-            match js.get(k) {
+            // a raw identifier may be shown with or without its `r#` prefix (the pinned formatter
+            // strips it for Debug values only)
+            let key = k.strip_prefix("r#").unwrap_or(k);
+            match js.get(key).or_else(|| js.get(k)) {
                 None => bad.push(format!("span {:?} field {:?} is missing in {:?}", exp.0, k, js)),
                 Some(jv) => {
                     if !faithful(v, jv) {
@@ -642,10 +645,19 @@ fn runner(job: &[u8]) -> Vec<u8> {
     let mut res = Res::default();
     let mut run = |c: Case, res: &mut Res| {
         let cc = c.clone();
-        let bad = std::panic::catch_unwind(move || check_case(&cc)).unwrap_or_else(|e| {
+        let mut bad = std::panic::catch_unwind(move || check_case(&cc)).unwrap_or_else(|e| {
             vec![format!("panic: {}", e.downcast_ref::<String>().cloned().or_else(|| e.downcast_ref::<&str>().map(|s| s.to_string())).unwrap_or_default())]
         });
         res.evals += 1;
+        // with the thread options on, the same case once more on a thread that has no name
+        if c.opts & 8 != 0 {
+            let cc = c.clone();
+            match std::thread::spawn(move || check_case(&cc)).join() {
+                Ok(b) => bad.extend(b.into_iter().map(|m| format!("[unnamed thread] {}", m))),
+                Err(_) => bad.push("[unnamed thread] panic".into()),
+            }
+            res.evals += 1;
+        }
         if !bad.is_empty() && res.bad.len() < 25 {
             res.bad.push((c, bad));
         }
@@ -709,6 +721,26 @@ fn history_cases(tier: Tier) -> Vec<Case> {
                 spans.push((format!("s{}", d), fields.iter().map(|f| f.to_string()).collect(), st));
             }
             out.push(Case { opts, target: "tgt".into(), spans, event: vec![("message".into(), V::Str("m".into())), ("z".into(), V::I64(9))] });
+        }
+        // span fields named by raw identifiers (shown without the `r#` prefix), in every position
+        // next to ordinary fields and for every value kind, at creation and in a later record
+        let raw = ["r#type", "k", "r#match"];
+        let rvals = [V::Dbg("alpha".into()), V::Str("beta".into()), V::I64(3), V::Disp("delta".into())];
+        for a in &rvals {
+            for b in &rvals {
+                for perm in [[0usize, 1, 2], [1, 0, 2], [1, 2, 0]] {
+                    let vs = [a.clone(), b.clone(), a.clone()];
+                    let sets: Vec<(String, V)> = perm.iter().map(|i| (raw[*i].to_string(), vs[*i].clone())).collect();
+                    let declared: Vec<String> = raw.iter().map(|f| f.to_string()).collect();
+                    out.push(Case { opts, target: "tgt".into(), spans: vec![("sp".into(), declared.clone(), vec![SpanStep { sets: sets.clone() }])], event: vec![("message".into(), V::Str("m".into()))] });
+                    out.push(Case {
+                        opts,
+                        target: "tgt".into(),
+                        spans: vec![("sp".into(), declared, vec![SpanStep { sets: sets[..1].to_vec() }, SpanStep { sets: sets[1..].to_vec() }])],
+                        event: vec![("message".into(), V::Str("m".into()))],
+                    });
+                }
+            }
         }
     }
     out
@@ -797,8 +829,15 @@ pub fn run(args: &Args) -> i32 {
             }
             return i32::from(!bad.is_empty());
         }
-        let c: Case = serde_json::from_value(v["case"].clone()).expect("case");
-        let bad = check_case(&c);
+        let c: Case = match &v["case"] {
+            serde_json::Value::String(text) => serde_json::from_str(text).expect("case"),
+            other => serde_json::from_value(other.clone()).expect("case"),
+        };
+        let mut bad = check_case(&c);
+        if c.opts & 8 != 0 {
+            let cc = c.clone();
+            bad.extend(std::thread::spawn(move || check_case(&cc)).join().unwrap_or_else(|_| vec!["panic".into()]).into_iter().map(|m| format!("[unnamed thread] {}", m)));
+        }
         for x in &bad {
             println!("VIOLATION property={} replay={} :: {}", args.property, p, x);
         }
@@ -858,7 +897,9 @@ pub fn run(args: &Args) -> i32 {
     }
     bad.sort_by_key(|(c, _)| serde_json::to_string(c).unwrap());
     for (c, msgs) in &bad {
-        rep.violation(format!("{} (+{} more)", msgs[0], msgs.len() - 1), serde_json::to_value(c).unwrap());
+        // (128-bit values beyond the 64-bit range have no serde_json::Value: such a case is kept as text)
+        let cv = serde_json::to_value(c).unwrap_or_else(|_| serde_json::Value::String(serde_json::to_string(c).unwrap_or_default()));
+        rep.violation(format!("{} (+{} more)", msgs[0], msgs.len() - 1), cv);
     }
     drop(pool);
     // schedule part
